@@ -113,6 +113,30 @@ func closeConnAndLog(c io.Closer, log logging.LeveledLogger, msg string, args ..
 	}
 }
 
+// gatherUfragKey is the context key under which a gathering cycle carries the
+// local ufrag it was started with.
+type gatherUfragKey struct{}
+
+// gatherUfrag returns the local ufrag of the gathering cycle that ctx belongs to.
+// The gatherers run outside the agent loop while Restart replaces a.localUfrag on
+// it, so they must not read the field directly, and a cycle that Restart has
+// canceled must not touch the mux connections of the new ufrag.
+func (a *Agent) gatherUfrag(ctx context.Context) string {
+	if ufrag, ok := ctx.Value(gatherUfragKey{}).(string); ok {
+		return ufrag
+	}
+
+	var ufrag string
+	if err := a.loop.Run(a.loop, func(context.Context) {
+		ufrag = a.localUfrag
+	}); err != nil {
+		// The loop is closed, nothing writes the field anymore.
+		return a.localUfrag
+	}
+
+	return ufrag
+}
+
 // GatherCandidates initiates the trickle based gathering process.
 func (a *Agent) GatherCandidates() error {
 	var gatherErr error
@@ -129,7 +153,7 @@ func (a *Agent) GatherCandidates() error {
 		}
 
 		a.gatherCandidateCancel() // Cancel previous gathering routine
-		ctx, cancel := context.WithCancel(ctx)
+		ctx, cancel := context.WithCancel(context.WithValue(ctx, gatherUfragKey{}, a.localUfrag))
 		a.gatherCandidateCancel = cancel
 		done := make(chan struct{})
 		a.gatherCandidateDone = done
@@ -323,6 +347,7 @@ func (a *Agent) gatherServerReflexiveCandidates(ctx context.Context, wg *sync.Wa
 
 //nolint:gocognit,gocyclo,cyclop,maintidx
 func (a *Agent) gatherCandidatesLocal(ctx context.Context, networkTypes []NetworkType) {
+	localUfrag := a.gatherUfrag(ctx)
 	networks := map[string]struct{}{}
 	for _, networkType := range configuredNetworkTypes(networkTypes) {
 		if networkType.IsTCP() {
@@ -402,20 +427,20 @@ func (a *Agent) gatherCandidatesLocal(ctx context.Context, networkTypes []Networ
 					// Handle ICE TCP passive mode
 					var muxConns []net.PacketConn
 					if multi, ok := a.tcpMux.(AllConnsGetter); ok {
-						a.log.Debugf("GetAllConns by ufrag: %s", a.localUfrag)
+						a.log.Debugf("GetAllConns by ufrag: %s", localUfrag)
 						// Note: this is missing zone for IPv6 by just grabbing the IP slice
-						muxConns, err = multi.GetAllConns(a.localUfrag, mappedIP.Is6(), addr.AsSlice())
+						muxConns, err = multi.GetAllConns(localUfrag, mappedIP.Is6(), addr.AsSlice())
 						if err != nil {
-							a.log.Warnf("Failed to get all TCP connections by ufrag: %s %s %s", network, addr, a.localUfrag)
+							a.log.Warnf("Failed to get all TCP connections by ufrag: %s %s %s", network, addr, localUfrag)
 
 							continue
 						}
 					} else {
-						a.log.Debugf("GetConn by ufrag: %s", a.localUfrag)
+						a.log.Debugf("GetConn by ufrag: %s", localUfrag)
 						// Note: this is missing zone for IPv6 by just grabbing the IP slice
-						conn, err := a.tcpMux.GetConnByUfrag(a.localUfrag, mappedIP.Is6(), addr.AsSlice())
+						conn, err := a.tcpMux.GetConnByUfrag(localUfrag, mappedIP.Is6(), addr.AsSlice())
 						if err != nil {
-							a.log.Warnf("Failed to get TCP connections by ufrag: %s %s %s", network, addr, a.localUfrag)
+							a.log.Warnf("Failed to get TCP connections by ufrag: %s %s %s", network, addr, localUfrag)
 
 							continue
 						}
@@ -431,7 +456,7 @@ func (a *Agent) gatherCandidatesLocal(ctx context.Context, networkTypes []Networ
 								conn,
 								a.log,
 								"Failed to get port of connection from TCPMux: %s %s %s",
-								network, addr, a.localUfrag,
+								network, addr, localUfrag,
 							)
 						}
 					}
@@ -457,7 +482,7 @@ func (a *Agent) gatherCandidatesLocal(ctx context.Context, networkTypes []Networ
 					if udpConn, ok := conn.LocalAddr().(*net.UDPAddr); ok {
 						conns = append(conns, connAndPort{conn, udpConn.Port})
 					} else {
-						a.log.Warnf("Failed to get port of UDPAddr from ListenUDPInPortRange: %s %s %s", network, addr, a.localUfrag)
+						a.log.Warnf("Failed to get port of UDPAddr from ListenUDPInPortRange: %s %s %s", network, addr, localUfrag)
 
 						continue
 					}
@@ -538,6 +563,7 @@ func (a *Agent) gatherCandidatesLocalUDPMux(ctx context.Context) error { //nolin
 		return errUDPMuxDisabled
 	}
 
+	localUfrag := a.gatherUfrag(ctx)
 	localAddresses := a.udpMux.GetListenAddresses()
 	existingConfigs := make(map[CandidateHostConfig]struct{})
 
@@ -603,7 +629,7 @@ func (a *Agent) gatherCandidatesLocalUDPMux(ctx context.Context) error { //nolin
 				continue
 			}
 
-			conn, err := a.udpMux.GetConn(a.localUfrag, udpAddr)
+			conn, err := a.udpMux.GetConn(localUfrag, udpAddr)
 			if err != nil {
 				return err
 			}
@@ -749,6 +775,8 @@ func (a *Agent) gatherCandidatesSrflxMapped(ctx context.Context, networkTypes []
 
 //nolint:gocognit,cyclop
 func (a *Agent) gatherCandidatesSrflxUDPMux(ctx context.Context, urls []*stun.URI, networkTypes []NetworkType) {
+	localUfrag := a.gatherUfrag(ctx)
+
 	var wg sync.WaitGroup
 	defer wg.Wait()
 
@@ -794,7 +822,7 @@ func (a *Agent) gatherCandidatesSrflxUDPMux(ctx context.Context, urls []*stun.UR
 						return
 					}
 
-					conn, err := a.udpMuxSrflx.GetConnForURL(a.localUfrag, url.String(), localAddr)
+					conn, err := a.udpMuxSrflx.GetConnForURL(localUfrag, url.String(), localAddr)
 					if err != nil {
 						a.log.Warnf("Failed to find connection in UDPMuxSrflx %s %s: %v", network, url, err)
 
